@@ -297,18 +297,25 @@ class CallbacksExecutor:
         insort(self.items, wrapper)
 
     async def async_call(self, *args, **kwargs):
-        return await asyncio.gather(
-            *(
-                callback(*args, **kwargs)
-                for callback in self
-                if callback.condition(*args, **kwargs)
-            )
+        return await self._gather(
+            callback(*args, **kwargs) for callback in self if callback.condition(*args, **kwargs)
         )
+
+    @staticmethod
+    async def _gather(coros):
+        # Wait for every started callback, even when one of them raises: otherwise the others
+        # keep running in the background after the failure has been reported to the caller
+        # (and may even grab the processing lock by sending events).
+        results = await asyncio.gather(*coros, return_exceptions=True)
+        for result in results:
+            if isinstance(result, BaseException):
+                raise result
+        return results
 
     async def async_all(self, *args, **kwargs):
         # every started condition is awaited to completion: returning at the first falsy one
         # would leave the others running in the background while the next phase starts
-        results = await asyncio.gather(*(condition(*args, **kwargs) for condition in self))
+        results = await self._gather(condition(*args, **kwargs) for condition in self)
         return all(results)
 
     def call(self, *args, **kwargs):
